@@ -18,10 +18,15 @@ type c16Ent struct {
 	Name     string
 	IsSystem bool
 	Tags     map[string]any
+	Child    bool // has data in the child store
+	Extra    string
 }
 
 type c16Op struct {
 	Kind    string         `json:"kind"` // create update patch delete
+	Child   bool           `json:"through_child_store,omitempty"`
+	Over    bool           `json:"create_over_existing_parent,omitempty"`
+	Extra   string         `json:"extra,omitempty"`
 	Id      string         `json:"id"`
 	SysCtx  bool           `json:"system_context"`
 	Flag    bool           `json:"entity_is_system_flag"`
@@ -38,6 +43,7 @@ func init() {
 		Level: "exploration",
 		Rule: "random histories over a BaseExtEntity store with the system-entity constraint: create/update/patch/delete x {ordinary, system} context (contexts mixed inside one transaction via GetSystemContext / NewSystemMutateContext) x " +
 			"{ordinary, system} entity, with update payloads that try to flip the flag in both directions (with and without the Migrate marker) and field checkers that include or skip written fields; " +
+			"the same operations through a child store of that store (incl. a child-store create over an existing parent-only system entity from an ordinary context), and tolerant callers that ignore the error of a refused update / delete, carry on in the same transaction and commit; " +
 			"model predicts accept/reject; after every transaction every entity is read back (flag, name, tags) and compared, refused transactions must leave the whole-file dump unchanged; " +
 			"non-trivial = distinct (op, context kind, stored flag, payload flag, migrate, checker shape, outcome, position in transaction) tuples",
 		Assumptions: []string{"createdAt/updatedAt timestamps are not compared"},
@@ -61,7 +67,8 @@ func init() {
 					}
 				}
 			}
-			return map[string][]string{"combo": want, "flip": {"to-system:plainctx", "to-system:sysctx", "to-ordinary:sysctx", "to-system-migrate:plainctx", "to-system-migrate:sysctx"}}
+			return map[string][]string{"combo": want, "flip": {"to-system:plainctx", "to-system:sysctx", "to-ordinary:sysctx", "to-system-migrate:plainctx", "to-system-migrate:sysctx", "child-create-over-system-parent:plainctx"},
+				"tolerant": {"update:plainctx:sysent", "patch:plainctx:sysent", "delete:plainctx:sysent"}}
 		},
 	})
 }
@@ -70,7 +77,9 @@ func runC16(c *core.Ctx, idx int) {
 	r := c.Rand()
 	def := &schema.StoreDef{Type: "widgets", BasePath: []string{"stores"}, Ext: true, System: true,
 		Fields: []schema.Field{{Name: "name", Kind: schema.KStr}}}
-	sc := schema.Build([]*schema.StoreDef{def})
+	kid := &schema.StoreDef{Type: "widgets", Parent: "widgets", ChildPath: []string{"kid"}, Fields: []schema.Field{{Name: "extra", Kind: schema.KStr}}}
+	sc := schema.Build([]*schema.StoreDef{def, kid})
+	kst := sc.St("widgets/kid")
 	path := c.TempFile("c16")
 	db, err := sc.OpenDb(path)
 	if err != nil {
@@ -94,15 +103,17 @@ func runC16(c *core.Ctx, idx int) {
 		switch op.Kind {
 		case "create":
 			if exists {
+				// through the child store over an existing parent-only entity: only generated for a system entity and an
+				// ordinary context, where it is an attempt to rewrite a system entity
 				op.Exp = "reject"
 			} else if op.Flag && !op.SysCtx {
 				op.Exp = "reject"
 			} else {
 				op.Exp = "ok"
-				m[op.Id] = &c16Ent{Name: op.Name, IsSystem: op.Flag, Tags: normTags(op.Tags)}
+				m[op.Id] = &c16Ent{Name: op.Name, IsSystem: op.Flag, Tags: normTags(op.Tags), Child: op.Child, Extra: op.Extra}
 			}
 		case "update", "patch":
-			if !exists {
+			if !exists || (op.Child && !cur.Child) {
 				op.Exp = "reject"
 			} else if cur.IsSystem && !op.SysCtx {
 				op.Exp = "reject"
@@ -125,6 +136,9 @@ func runC16(c *core.Ctx, idx int) {
 				if sel("tags") {
 					cur.Tags = normTags(op.Tags)
 				}
+				if op.Child && sel("extra") {
+					cur.Extra = op.Extra
+				}
 			}
 		case "delete":
 			if !exists {
@@ -146,18 +160,26 @@ func runC16(c *core.Ctx, idx int) {
 		case "create", "update", "patch":
 			name := op.Name
 			e := &schema.Ent{Id: op.Id, Typ: "widgets", V: map[string]any{"name": name}}
+			target := st
+			if op.Child {
+				target = kst
+				e.V["extra"] = op.Extra
+			}
 			e.Ext.Id = op.Id
 			e.Ext.IsSystem = op.Flag
 			e.Ext.Tags = op.Tags
 			e.Ext.Migrate = op.Migrate
 			if op.Kind == "create" {
-				return st.Store.Create(use, e)
+				return target.Store.Create(use, e)
 			}
 			if op.Kind == "update" {
-				return st.Store.Update(use, e, nil)
+				return target.Store.Update(use, e, nil)
 			}
-			return st.Store.Update(use, e, checker(op.Fields))
+			return target.Store.Update(use, e, checker(op.Fields))
 		case "delete":
+			if op.Child {
+				return kst.Store.DeleteById(use, op.Id)
+			}
 			return st.Store.DeleteById(use, op.Id)
 		}
 		return nil
@@ -167,8 +189,15 @@ func runC16(c *core.Ctx, idx int) {
 		n := 1 + r.Intn(3)
 		scratch := cloneC16(model)
 		var ops []c16Op
+		// a tolerant caller ignores the error of a refused update or delete, carries on in the same transaction and
+		// commits: the refused attempt must not have changed anything
+		tolerant := r.P(0.4)
+		if tolerant {
+			n += 2
+		}
 		for i := 0; i < n; i++ {
-			op := c16Op{Kind: core.Pick(r, []string{"create", "create", "update", "patch", "delete"}), SysCtx: r.Bool(), Flag: r.P(0.4), Name: core.Pick(r, names), Tags: core.Pick(r, tagPool)}
+			op := c16Op{Kind: core.Pick(r, []string{"create", "create", "update", "patch", "delete"}), SysCtx: r.Bool(), Flag: r.P(0.4), Name: core.Pick(r, names), Tags: core.Pick(r, tagPool),
+				Child: r.P(0.4), Extra: core.Pick(r, []string{"x", "y", ""})}
 			var existing []string
 			for id := range scratch {
 				existing = append(existing, id)
@@ -185,10 +214,29 @@ func runC16(c *core.Ctx, idx int) {
 						}
 					}
 				}
+				// through the child store over an existing parent-only system entity, from an ordinary context
+				if r.P(0.25) {
+					for _, id := range existing {
+						if cur := scratch[id]; cur.IsSystem && !cur.Child {
+							op.Id, op.Child, op.Over, op.SysCtx = id, true, true, false
+							break
+						}
+					}
+				}
+				if _, ex := scratch[op.Id]; ex && !op.Over {
+					op.Child = false // an ordinary duplicate create goes through the parent store
+				}
 			} else {
 				op.Id = core.Pick(r, existing)
 				if r.P(0.05) {
 					op.Id = core.Pick(r, ids)
+				}
+				if cur, ok := scratch[op.Id]; !ok || !cur.Child {
+					// parent-only entities are not touched through the child store (left open by the statements), except
+					// that an update through it must not find them
+					if op.Kind == "delete" || r.P(0.8) {
+						op.Child = false
+					}
 				}
 			}
 			if op.Kind == "update" || op.Kind == "patch" {
@@ -198,7 +246,7 @@ func runC16(c *core.Ctx, idx int) {
 				}
 			}
 			if op.Kind == "patch" {
-				op.Fields = core.Subset(r, []string{"name", "tags", "isSystem"}, 0.5)
+				op.Fields = core.Subset(r, []string{"name", "tags", "isSystem", "extra"}, 0.5)
 				if op.Fields == nil {
 					op.Fields = []string{}
 				}
@@ -229,8 +277,15 @@ func runC16(c *core.Ctx, idx int) {
 				}
 				c.Cover("flip", dir+":"+ctxs)
 			}
-			c.Nontrivial(op.Kind, op.SysCtx, storedSys, op.Flag, op.Migrate, len(op.Fields), op.Exp, i)
+			c.Nontrivial(op.Kind, op.SysCtx, storedSys, op.Flag, op.Migrate, len(op.Fields), op.Exp, i, op.Child, op.Over, tolerant)
+			if op.Over {
+				c.Cover("flip", "child-create-over-system-parent:plainctx")
+			}
 			if op.Exp != "ok" {
+				if tolerant && op.Kind != "create" && existed {
+					c.Cover("tolerant", op.Kind+":"+ctxs+":"+ents)
+					continue
+				}
 				break
 			}
 		}
@@ -259,6 +314,9 @@ func runC16(c *core.Ctx, idx int) {
 					c.Violationf(fmt.Sprintf("C16 outcome: %s in %s context on %s entity expected %s", op.Kind, ctxName(op.SysCtx), entName(model, scratch, op), op.Exp),
 						map[string]any{"history": tailC16(hist, 5), "op_index": i}, "op %+v returned %v, model predicted %s", op, err, op.Exp)
 				}
+				if op.Exp != "ok" && err != nil && i < len(ops)-1 {
+					continue // tolerant caller: the generator only continues past a refused update / delete in that mode
+				}
 				if op.Exp != "ok" {
 					expectFail = true
 				}
@@ -286,6 +344,10 @@ func runC16(c *core.Ctx, idx int) {
 					if e, found, _ := st.Store.FindById(tx, id); found {
 						n, _ := e.V["name"].(string)
 						model[id] = &c16Ent{Name: n, IsSystem: e.Ext.IsSystem, Tags: normTags(e.Ext.Tags)}
+						if ke, found, _ := kst.Store.FindById(tx, id); found && ke != nil {
+							model[id].Child = true
+							model[id].Extra, _ = ke.V["extra"].(string)
+						}
 					}
 				}
 				return nil
@@ -312,6 +374,14 @@ func runC16(c *core.Ctx, idx int) {
 				n, _ := e.V["name"].(string)
 				if e.Ext.IsSystem != m.IsSystem {
 					c.Violationf(fmt.Sprintf("C16 system flag changed: now %v, fixed at creation as %v", e.Ext.IsSystem, m.IsSystem), map[string]any{"history": tailC16(hist, 5), "id": id}, "entity %s", id)
+				}
+				hasKid := kst.Store.IsEntityPresent(tx, id)
+				extra := ""
+				if ke, found, _ := kst.Store.FindById(tx, id); found && ke != nil {
+					extra, _ = ke.V["extra"].(string)
+				}
+				if hasKid != m.Child || (m.Child && extra != m.Extra) {
+					c.Violationf("C16 child-store part differs from the model", map[string]any{"history": tailC16(hist, 5), "id": id}, "entity %s: child data present %v (model %v), extra %q (model %q)", id, hasKid, m.Child, extra, m.Extra)
 				}
 				if n != m.Name || !nestedEq(expectNested(m.Tags), e.Ext.Tags) {
 					c.Violationf("C16 entity state differs from the model", map[string]any{"history": tailC16(hist, 5), "id": id}, "entity %s: name %q/%q tags %v/%v", id, n, m.Name, e.Ext.Tags, m.Tags)
